@@ -72,6 +72,8 @@ type Config struct {
 	DownAsFault bool `json:"down_as_fault,omitempty"`
 	// MoreFaults adds "wipe(i)" (shard restarted on an empty volume) and "flaky(h)" (one failing scrape) to the fault menu
 	MoreFaults bool `json:"more_faults,omitempty"`
+	// FaultKinds, when set, restricts the per-shard faults to these kinds (and disables "shrink")
+	FaultKinds []string `json:"fault_kinds,omitempty"`
 	// Inflight enables the event "a coordination cycle runs while shard i's Prometheus is in the middle of a scrape"
 	Inflight bool `json:"inflight,omitempty"`
 	// Later: targets that a workload event may add (discovered=false initially in Targets)
@@ -148,6 +150,8 @@ type World struct {
 	BudgetF int
 	BudgetD int
 	BudgetK int
+	// Setup lists seeded assignments that a sidecar did not resume when the world was built
+	Setup []string
 	// ghost bookkeeping of the harness, independent of the sidecars' own counters: completed scrapes of
 	// target h by shard i since it was assigned there / since its move began, and "a move began here"
 	since    []map[uint64]int
@@ -299,6 +303,24 @@ func (w *World) addShard(seed Seed, ordinal int) {
 		panic(fmt.Sprintf("sidecar start: %v", err))
 	}
 	w.shards = append(w.shards, &sc{s: s, dir: dir, ordinal: ordinal})
+	// the sidecar was started on a store holding the seeded assignment: it must have resumed exactly that
+	{
+		info := s.TM.TargetsInfo()
+		got := map[uint64]string{}
+		for _, ts := range info.Targets {
+			for _, t := range ts {
+				got[t.Hash] = t.TargetState
+			}
+		}
+		for h, st := range seed {
+			if gs, ok := got[h]; !ok || gs != st || info.Status[h] == nil || info.Status[h].TargetState != st {
+				w.Setup = append(w.Setup, fmt.Sprintf("shard %d started on a store that holds target %d in state %q; after the start it reports: stored %v, status entry %v", ordinal, h, st, got, info.Status[h] != nil))
+			}
+		}
+		if len(got) != len(seed) {
+			w.Setup = append(w.Setup, fmt.Sprintf("shard %d started on a store with %d targets and resumes %d", ordinal, len(seed), len(got)))
+		}
+	}
 	g, mv := map[uint64]int{}, map[uint64]bool{}
 	for h, st := range seed {
 		g[h] = 0
